@@ -3,7 +3,7 @@
    [attempt_abs c evs] is the captured response of ONE script run on a fresh bufferWriter (Proofs/BufferProofsB.v:
    bw_run — no file system, no heap, no request, no earlier attempt); [stops] says that the loop ends after an attempt. *)
 From Oxy Require Import Base.Prelude Model.Multibuf Model.Buffer
-  Proofs.BufferProofsA Proofs.BufferProofsB Proofs.BufferProofsC Proofs.BufferProofsD Proofs.BufferProofsE.
+  Proofs.BufferProofsA Proofs.BufferProofsB Proofs.BufferProofsC Proofs.BufferProofsD Proofs.BufferProofsE Proofs.BufferHeaders.
 From Oxy Require Gen.Consts.
 Open Scope Z_scope.
 
@@ -107,6 +107,15 @@ Theorem C07_refused_hijack_is_an_ordinary_attempt : forall a b rq s,
   dec_event true 6 a b = EFlush /\ ev_step rq s EFlush = s /\ dec_event false 6 a b = EHijack.
 Proof. intros. repeat split. Qed.
 Print Assumptions C07_refused_hijack_is_an_ordinary_attempt.
+
+(* behind the buffer nothing is sent before the handler returns: every header the handler sets before it returns is in the
+   attempt's header set, wherever the status and the writes come in between, and the attempt's status is the last one
+   chosen (a handler that completes a digest header after status and body still gets it delivered) *)
+Theorem C07_headers_and_status_in_any_order : forall rq evs s, b_hij (h_bw s) = false -> no_hijack evs ->
+  b_hdr (h_bw (run_events rq s evs)) = fold_left hdr_effect evs (b_hdr (h_bw s)) /\
+  b_code (h_bw (run_events rq s evs)) = fold_left code_effect evs (b_code (h_bw s)).
+Proof. exact headers_and_status_in_any_order. Qed.
+Print Assumptions C07_headers_and_status_in_any_order.
 
 (* non-vacuity: retry on  Attempts() < 3 && (IsNetworkError() || ResponseCode() == 503); attempts answer 502 (20 bytes,
    spilled over the 8-byte threshold), 503 (30 bytes), then header 2:=4 and 12 bytes with no status: the client sees
